@@ -153,8 +153,45 @@ func (g *gen) writeMethod(sb *strings.Builder, t *Ty, tps []string, m Meth, body
 	sb.WriteString(" { " + body + " }\n")
 }
 
+// deepType draws a type whose nesting depth is drawn from a heavy-tailed
+// distribution (a few levels usually, more than a hundred sometimes).
+func (g *gen) deepType() *Ty {
+	n := pick(g, "depth", 3, 5, 9, 17, 33, 50, 65, 97, 98, 99, 101, 129, 200)
+	// recorded finding: the unifier of the unused-code analysis gives up with a panic beyond a
+	// fixed depth; excluded by keeping generated types shallower than that
+	if n > 40 && !g.include("unify-max-depth-exceeded") {
+		n = 40
+	}
+	base := pick(g, "deepbase", "int", "string", "any")
+	var src string
+	k := KPtr
+	switch g.intn(0, 4, "deepform") {
+	case 0:
+		src = strings.Repeat("*", n) + base
+	case 1:
+		src, k = strings.Repeat("[]", n)+base, KSlice
+	case 2:
+		n = min(n, 60)
+		src, k = strings.Repeat("func(", n)+base+strings.Repeat(")", n), KFunc
+	case 3:
+		n = min(n, 60)
+		src, k = strings.Repeat("map[string]", n)+base, KMap
+	default:
+		n = min(n, 60)
+		src, k = strings.Repeat("chan ", n)+base, KChan
+	}
+	g.feat("deep_type")
+	if n >= 97 {
+		g.feat("deep_type_100")
+	}
+	return &Ty{K: k, Name: src, unit: -1, Opaque: true}
+}
+
 // smallType draws a simple type for method signatures.
 func (g *gen) smallType() *Ty {
+	if g.chance(4, "deepsmall") {
+		return g.deepType()
+	}
 	return pick(g, "smalltype", tInt, tString, tBool, tError, tAny, tF64, sliceOf(tByte), ptrTo(tInt), sliceOf(tString), tInt64)
 }
 
@@ -169,35 +206,42 @@ func (g *gen) inTest() bool {
 
 // namedType returns a declared type satisfying want (nil: any), declaring a
 // new one when none fits or a fresh one is drawn.
-func (g *gen) namedType(want func(*Ty) bool) *Ty {
+func (g *gen) namedType(want func(*Ty) bool, fallback ...int) *Ty {
 	var c []*Ty
 	for _, t := range g.pool {
-		if (want == nil || want(t)) && (!t.Test || g.inTest()) {
+		if !t.open && (want == nil || want(t)) && (!t.Test || g.inTest()) {
 			c = append(c, t)
 		}
 	}
-	if len(c) > 0 && g.chance(70, "reuse") {
+	if len(c) > 0 && g.chance(85, "reuse") {
 		t := c[g.intn(0, len(c)-1, "pick")]
 		g.dep(t.unit)
 		return t
 	}
-	for i := 0; i < 6; i++ {
-		t := g.declType(g.intn(0, 11, "typeform"))
-		if want == nil || want(t) {
-			return t
+	if want == nil {
+		return g.declType(g.intn(0, 13, "typeform"))
+	}
+	if len(fallback) == 0 {
+		for i := 0; i < 3; i++ {
+			if t := g.declType(g.intn(0, 13, "typeform")); want(t) {
+				return t
+			}
 		}
 	}
 	if len(c) > 0 {
-		t := c[0]
+		t := c[g.intn(0, len(c)-1, "pick")]
 		g.dep(t.unit)
 		return t
+	}
+	if len(fallback) > 0 {
+		return g.declType(fallback[g.intn(0, len(fallback)-1, "fallbackform")])
 	}
 	return g.declType(0)
 }
 
 // newNamed registers a declared type.
 func (g *gen) newNamed(name string, under *Ty) *Ty {
-	t := &Ty{K: under.K, Name: name, Named: true, Under: under, unit: g.curUnit(), Test: g.inTest()}
+	t := &Ty{K: under.K, Name: name, Named: true, Under: under, unit: g.curUnit(), Test: g.inTest(), open: true}
 	g.pool = append(g.pool, t)
 	return t
 }
@@ -212,6 +256,12 @@ func (g *gen) typeName() string {
 // declType declares a new type of the given form in its own unit.
 func (g *gen) declType(form int) *Ty {
 	var t *Ty
+	first := len(g.pool)
+	defer func() {
+		for _, x := range g.pool[min(first, len(g.pool)):] {
+			x.open = false
+		}
+	}()
 	g.unit("typedecl", g.inTest(), func() string {
 		var sb strings.Builder
 		switch form {
@@ -358,6 +408,34 @@ func (g *gen) declType(form int) *Ty {
 			t.Under = u
 			sb.WriteString(g.doc(name) + "type " + name + " " + g.ts(u) + "\n")
 			g.feat("embedded_field")
+		case 12: // a generic interface and a generic type whose equally named methods draw their
+			// parameter lists from one pool of shapes over the type parameter
+			iname, gname, m := g.typeName(), g.typeName(), g.methodName()
+			shapes := []string{"%s", "[]%s", "*%s", "map[string]%s", "func(%s)", "chan %s", "[2]%s", "[]%s", "%s"}
+			k := g.intn(1, 4, "arity")
+			var a, b []string
+			same := !g.include("unify-cyclic-binding")
+			for i := 0; i < k; i++ {
+				sa := pick(g, "shapeA", shapes...)
+				sb2 := pick(g, "shapeB", shapes...)
+				if same {
+					sb2 = sa
+				}
+				a = append(a, fmt.Sprintf(sa, "Y"))
+				b = append(b, fmt.Sprintf(sb2, "T"))
+			}
+			res := pick(g, "crossresult", "", "", " Y", " []Y", " error")
+			resB := strings.ReplaceAll(res, "Y", "T")
+			ret := ""
+			if resB != "" {
+				ret = " panic(0) "
+			}
+			sb.WriteString(g.doc(iname) + "type " + iname + "[Y any] interface{ " + m + "(" + strings.Join(a, ", ") + ")" + res + " }\n\n")
+			sb.WriteString(g.doc(gname) + "type " + gname + "[T any] struct{}\n\n")
+			sb.WriteString(g.doc(m) + "func (" + gname + "[T]) " + m + "(" + strings.Join(b, ", ") + ")" + resB + " {" + ret + "}\n")
+			t = &Ty{K: KStruct, Name: gname + "[int]", Named: true, Generic: true, Under: &Ty{K: KStruct, unit: -1}, unit: g.curUnit(), Test: g.inTest()}
+			g.pool = append(g.pool, t)
+			g.feat("generic_iface_and_impl")
 		default: // function type / channel type with methods
 			name := g.typeName()
 			u := pick(g, "methodbase", g.funcType(1), chanOf(0, tInt), mapOf(tString, tAny), sliceOf(tError), arrayOf(3, tString))
@@ -381,11 +459,11 @@ func (g *gen) embeddable() *Ty {
 	if g.chance(30, "stdembed") {
 		return pick(g, "stdembed", &Ty{K: KStruct, Name: "sync.Mutex", unit: -1}, &Ty{K: KIface, Name: "error", unit: -1, Methods: tError.Methods},
 			ptrTo(&Ty{K: KStruct, Name: "sync.RWMutex", unit: -1}), &Ty{K: KIface, Name: "fmt.Stringer", unit: -1, Methods: []Meth{{Name: "String", Results: []*Ty{tString}}}},
-			&Ty{K: KStruct, Name: "sync.WaitGroup", unit: -1}, &Ty{K: KIface, Name: "io.Reader", unit: -1})
+			&Ty{K: KStruct, Name: "sync.WaitGroup", unit: -1}, &Ty{K: KIface, Name: "io.Reader", unit: -1, Methods: []Meth{{Name: "Read", Params: []*Ty{sliceOf(tByte)}, Results: []*Ty{tInt, tError}}}})
 	}
 	var c []*Ty
 	for _, t := range g.pool {
-		if t.Named && t.Under != nil && t.Under.K != KPtr && t.Under.K != KTParam && !t.Generic && (!t.Test || g.inTest()) && t.unit != g.curUnit() {
+		if !t.open && t.Named && t.Under != nil && t.Under.K != KPtr && t.Under.K != KTParam && !t.Generic && (!t.Test || g.inTest()) && t.unit != g.curUnit() {
 			c = append(c, t)
 		}
 	}
@@ -402,7 +480,7 @@ func (g *gen) embeddable() *Ty {
 
 // errorType returns a declared type implementing error.
 func (g *gen) errorType() Impl {
-	t := g.namedType(func(t *Ty) bool { return t.method("Error") != nil && t.Under != nil && t.Under.K != KIface })
+	t := g.namedType(func(t *Ty) bool { return t.method("Error") != nil && t.Under != nil && t.Under.K != KIface }, 5)
 	return Impl{T: t, Ptr: t.method("Error").Ptr}
 }
 
